@@ -140,12 +140,12 @@ def path_model(repo, chk, fn, frame, args):
     # ---- key: all constituents, each through the same encoder
     first = rest_gen = None
     all_gen = None
-    if K[0] == '+' and len(K[1]) >= 2:
+    if K[0] in ('+', 'concat') and len(K[1]) >= 2:
         folds = [x for x in K[1] if x[:2] == ('call', ('name', '__fold_add__'))]
         others = [x for x in K[1] if x not in folds]
         if len(folds) == 1 and folds[0][2] and folds[0][2][0][0] == 'genexp':
             rest_gen = folds[0][2][0]
-            first = others[0] if len(others) == 1 else ('+', tuple(others))
+            first = others[0] if len(others) == 1 else (K[0], tuple(others))
     bb = unify(pattern(m, 'functools.reduce(operator.add, G)', ['G']), K)
     if bb is not None and bb['G'][0] in ('genexp', 'listcomp'):
         all_gen = bb['G']
